@@ -125,6 +125,8 @@ fn main() {
         Call::new(M::E, 0),
         Call::new(M::E, 1),
         Call::new(M::A, 0),
+        // a method no clause mentions: the call is refused and must not disturb the sequence
+        Call::new(M::B, 0),
     ];
     let mut seqs: Vec<(String, Vec<ClauseSpec>)> = vec![];
     // length 1 and 2: full alphabet; length 3: reduced alphabet (thorough only)
